@@ -6,6 +6,7 @@ import (
 	"fmt"
 	"os"
 	"path/filepath"
+	"syscall"
 	"testing"
 
 	"verif/fw"
@@ -221,6 +222,10 @@ func c07IndexFromFile(c *fw.Case) *c07Op {
 var c07Ops = []func(c *fw.Case) *c07Op{c07Assemble, c07Verify, c07Chop, c07Copy, c07ChunkStream, c07IndexFromFile}
 
 func runC07(c *fw.Case) {
+	if desyncBin() != "" && c.Chance(1, 10, "c07.proc") {
+		runC07Proc(c)
+		return
+	}
 	defer desync.VerifSetCloneRangeHook(nil)
 	op := c07Ops[c.Draw(len(c07Ops), "c07.op")](c)
 	c.Class(op.name)
@@ -299,4 +304,225 @@ func runC07(c *fw.Case) {
 
 func TestC07(t *testing.T) {
 	fw.Main(t, &fw.Check{ID: "C07", Level: "exploration", Run: runC07})
+}
+
+// ---- C07 (process level): SIGINT/SIGTERM to the real binary while a request is held ----
+
+func runC07Proc(c *fw.Case) {
+	cmdKind := c.Draw(6, "proc.cmd")
+	names := []string{"extract", "extract --in-place", "chop", "cache", "make", "untar -i"}
+	sig := []syscall.Signal{syscall.SIGINT, syscall.SIGTERM}[c.Draw(2, "proc.sig")]
+	n := []string{"1", "1", "3"}[c.Draw(3, "proc.n")]
+	c.Class(fmt.Sprintf("proc %s sig=%v n=%s", names[cmdKind], sig, n))
+	dir := c.Dir()
+	out := filepath.Join(dir, "out")
+	var (
+		blob     []byte
+		idx      desync.Index
+		prior    []byte
+		srcTree  string
+		wantTree map[string]*treeEntry
+	)
+	sz := sizes{256, 1024, 4096}
+	if cmdKind == 4 {
+		sz = sizes{1024, 4096, 16384} // the CLI takes chunk sizes in KiB
+	}
+	if cmdKind == 5 {
+		srcTree = filepath.Join(dir, "src")
+		if _, err := genTree(c, srcTree, 25); err != nil {
+			c.HarnessError("%v", err)
+			return
+		}
+		var err error
+		if blob, err = tarTree(srcTree); err != nil {
+			c.HarnessError("%v", err)
+			return
+		}
+		wantTree, _ = snapshot(srcTree)
+	} else {
+		for tries := 0; tries < 5; tries++ {
+			blob = genBlob(c, sz, 20*int(sz.max))
+			if len(refIndex(blob, sz)) >= 4 {
+				break
+			}
+		}
+	}
+	idx = mkIndex(blob, sz)
+	if cmdKind == 5 {
+		idx.Index.FeatureFlags |= desync.TarFeatureFlags
+	}
+	indexFile := filepath.Join(dir, "blob.caibx")
+	blobFile := filepath.Join(dir, "blob")
+	cacheDir := filepath.Join(dir, "cache")
+	writeIndex := func() {
+		f, _ := os.Create(indexFile)
+		idx.WriteTo(f)
+		f.Close()
+	}
+	if c.Bool("proc.prior") && cmdKind <= 1 {
+		prior = editBlob(c, blob, "prior")
+	}
+	c.Note("real `desync %s` sig=%v n=%s chunks=%d", names[cmdKind], sig, n, len(idx.Chunks))
+	var holdKind string
+	var args func(g *gateServer) []string
+	switch cmdKind {
+	case 0, 1:
+		holdKind = "GET"
+		args = func(g *gateServer) []string {
+			a := []string{"extract", "-n", n, "-s", g.url()}
+			if cmdKind == 1 {
+				a = append(a, "--in-place")
+			}
+			return append(a, indexFile, out)
+		}
+	case 2:
+		holdKind = "PUT"
+		args = func(g *gateServer) []string { return []string{"chop", "-n", n, "-s", g.url(), indexFile, blobFile} }
+	case 3:
+		holdKind = "GET"
+		args = func(g *gateServer) []string {
+			return []string{"cache", "-n", n, "-s", g.url(), "-c", cacheDir, indexFile}
+		}
+	case 4:
+		holdKind = "PUT"
+		args = func(g *gateServer) []string {
+			return []string{"make", "-n", n, "-m", "1:4:16", "-s", g.url(), indexFile, blobFile}
+		}
+	case 5:
+		holdKind = "GET"
+		args = func(g *gateServer) []string { return []string{"untar", "-i", "-n", n, "-s", g.url(), indexFile, out} }
+	}
+	reset := func() {
+		os.RemoveAll(out)
+		os.RemoveAll(cacheDir)
+		os.MkdirAll(cacheDir, 0755)
+		if prior != nil {
+			os.WriteFile(out, prior, 0644)
+		}
+		if cmdKind == 5 {
+			os.MkdirAll(out, 0755)
+		}
+		os.WriteFile(blobFile, blob, 0644)
+		if cmdKind == 4 {
+			os.Remove(indexFile)
+		} else {
+			writeIndex()
+		}
+	}
+	serve := func() *gateServer {
+		g, err := newGateServer(cmdKind == 2 || cmdKind == 4)
+		if err != nil {
+			c.HarnessError("%v", err)
+			return nil
+		}
+		if holdKind == "GET" {
+			for _, ch := range idx.Chunks {
+				g.addChunk(blob[ch.Start : ch.Start+ch.Size])
+			}
+		}
+		return g
+	}
+	complete := func(g *gateServer) string {
+		switch cmdKind {
+		case 0, 1:
+			got, err := os.ReadFile(out)
+			if err != nil || !bytes.Equal(got, blob) {
+				return "the destination does not hold the blob"
+			}
+		case 2, 4:
+			for _, ch := range idx.Chunks {
+				s := ch.ID.String()
+				if _, ok := g.stored["/"+s[:4]+"/"+s+".cacnk"]; !ok {
+					return "chunk " + s[:8] + " was not stored"
+				}
+			}
+			if cmdKind == 4 {
+				f, err := os.Open(indexFile)
+				if err != nil {
+					return "no index file was written"
+				}
+				defer f.Close()
+				got, err := desync.IndexFromReader(f)
+				if err != nil {
+					return "index file unreadable: " + err.Error()
+				}
+				if cls, d := compareTables(got.Chunks, idx.Chunks); cls != "" {
+					return "index does not describe the input: " + d
+				}
+			}
+		case 3:
+			ls, _ := desync.NewLocalStore(cacheDir, desync.StoreOptions{})
+			for _, ch := range idx.Chunks {
+				if ok, _ := ls.HasChunk(ch.ID); !ok {
+					return "chunk " + ch.ID.String()[:8] + " is not in the cache"
+				}
+			}
+		case 5:
+			got, err := snapshot(out)
+			if err != nil {
+				return err.Error()
+			}
+			if cat, d := diffTrees(wantTree, got, map[string]bool{"mtime-symlink": true}); cat != "" {
+				return "tree incomplete: " + d
+			}
+		}
+		return ""
+	}
+	// full run: must succeed and be complete; counts the gated requests
+	reset()
+	g := serve()
+	if g == nil {
+		return
+	}
+	res, err := runPlain(args(g)...)
+	total := len(g.requests(holdKind))
+	why := complete(g)
+	g.close()
+	if err != nil {
+		c.HarnessError("%v", err)
+		return
+	}
+	if res.exit != 0 || why != "" {
+		c.Violate("command-failed", "desync "+names[cmdKind], "un-signalled run: exit %d, %s: %s", res.exit, why, res.output)
+		return
+	}
+	ks := map[int]bool{1: true, total: true}
+	for i := 0; i < 6 && total > 0; i++ {
+		ks[1+c.Draw(total, "proc.k")] = true
+	}
+	for k := 1; k <= total; k++ {
+		if !ks[k] {
+			continue
+		}
+		reset()
+		g := serve()
+		if g == nil {
+			return
+		}
+		g.holdKind, g.holdAt = holdKind, k
+		res, err := runGated(g, sig, args(g)...)
+		why := complete(g)
+		g.close()
+		if err != nil {
+			c.HarnessError("signal at request %d: %v", k, err)
+			return
+		}
+		if !res.heldSeen {
+			continue
+		}
+		c.SubEval(1)
+		c.Fault("signal-" + sig.String())
+		if res.exit == 0 && why != "" {
+			c.Violate("exit-0-after-signal", "desync "+names[cmdKind], "%v while %s request %d of %d was in flight: the command exited 0 but %s", sig, holdKind, k, total, why)
+			return
+		}
+		if cmdKind == 0 && res.exit != 0 {
+			now, rerr := os.ReadFile(out)
+			if (prior == nil && rerr == nil) || (prior != nil && !bytes.Equal(now, prior)) {
+				c.Violate("destination-touched", "desync extract", "%v at request %d of %d: extract failed (exit %d) but the destination path changed", sig, k, total, res.exit)
+				return
+			}
+		}
+	}
+	c.Outcome("ok")
 }
